@@ -143,6 +143,8 @@ Weak1(v, lite) ==
   (IF v.st # "k" THEN {}
    ELSE CASE v.ty.k \in {"list", "set", "tuple"} ->
                UNION {{SetElem(v, i, w) : w \in Weak1(Elems(v)[i], TRUE)} : i \in 1..Len(Elems(v))}
+               \* a set may hold, next to a member, a further member that admits the same value (the two coalesce)
+               \cup (IF v.ty.k = "set" THEN UNION {{[v EXCEPT !.v = [l |-> Append(Elems(v), w)]] : w \in Weak1(Elems(v)[i], TRUE)} : i \in 1..Len(Elems(v))} ELSE {})
           [] v.ty.k \in {"map", "object"} ->
                UNION {{SetAttr(v, n, w) : w \in Weak1(Attrs(v)[n], TRUE)} : n \in DOMAIN Attrs(v)}
           [] OTHER -> {})
